@@ -35,6 +35,26 @@ func (g *Gen) exclusions(nd int) []string {
 	return out
 }
 
+// foreignExclusions: bitmaps that also name document numbers the segment does not have (a bitmap
+// kept for a bigger, earlier segment, say): as many members as the segment has documents, or more
+func (g *Gen) foreignExclusions(nd int) []string {
+	var out []string
+	if nd >= 2 {
+		xs := []int{0}
+		for k := 0; k < nd; k++ {
+			xs = append(xs, 1000*(k+1))
+		}
+		out = append(out, intList(xs)) // one document of the segment, nd foreign ones
+		ys := []int{nd - 1}
+		for k := 0; k < nd-1; k++ {
+			ys = append(ys, nd+k)
+		}
+		out = append(out, intList(ys)) // exactly nd members, one of them in the segment
+	}
+	out = append(out, intList([]int{nd, nd + 1, 70000}))
+	return out
+}
+
 func (g *Gen) thesQueries(seg string, reuse bool) {
 	u := g.univ[seg]
 	nd := g.ndocs[seg]
@@ -63,6 +83,20 @@ func (g *Gen) thesQueries(seg string, reuse bool) {
 			}
 		}
 		g.emit("q thesterms %s %s probe=%s", seg, th, hxList(probe))
+		if ks := sortedKeys(u.Thes[th]); len(ks) > 0 {
+			// listings that select some, one, or none of the terms: a key range starting after the last
+			// term, one ending before the first, one around a single term, and the automaton that accepts nothing
+			last, first := []byte(ks[len(ks)-1]), []byte(ks[0])
+			g.emit("q thesterms %s %s probe=- lo=%s hi=*", seg, th, hx(append(append([]byte{}, last...), 0)))
+			if len(first) > 0 {
+				g.emit("q thesterms %s %s probe=- lo=* hi=%s", seg, th, hx(first))
+			}
+			g.emit("q thesterms %s %s probe=- lo=%s hi=%s", seg, th, hx(last), hx(append(append([]byte{}, last...), 0)))
+			g.emit("q thesterms %s %s probe=- aut=none", seg, th)
+			if len(ks) > 1 {
+				g.emit("q thesterms %s %s probe=- lo=%s hi=%s", seg, th, hx(append(append([]byte{}, first...), 0)), hx([]byte(ks[1])))
+			}
+		}
 		if u.Thes[th] != nil {
 			// synonym fields contribute nothing to the ordinary dictionaries
 			g.emit("q dict %s %s aut=all lo=* hi=* probe=%s", seg, th, hxList(probe))
@@ -79,7 +113,7 @@ func (g *Gen) thesQueries(seg string, reuse bool) {
 			g.emit("q thes %s %s %s ex=nil sl=%s si=%s", seg, th, hx(probe[0]), sl, si)
 		}
 		for _, t := range probe {
-			for _, ex := range g.exclusions(nd) {
+			for _, ex := range append(g.exclusions(nd), g.foreignExclusions(nd)...) {
 				line := fmt.Sprintf("q thes %s %s %s ex=%s", seg, th, hx(t), ex)
 				if reuse && g.chance(0.6) {
 					line += fmt.Sprintf(" sl=l%d si=i%d", g.r.Intn(2), g.r.Intn(2))
@@ -189,6 +223,9 @@ func (g *Gen) genC13(n int) error {
 			continue
 		}
 		depth := 1 + g.r.Intn(3)
+		if i%5 == 1 {
+			g.abandonBeforeMerge = true
+		}
 		g.genMergeCase(func(c *batchCfg) {
 			c.syn = true
 			if c.maxDocs > 5 {
@@ -197,6 +234,7 @@ func (g *Gen) genC13(n int) error {
 		}, func(m string) {
 			g.thesQueries(m, true)
 		}, depth)
+		g.abandonBeforeMerge = false
 		g.st("case")
 	}
 	return nil
@@ -452,6 +490,22 @@ func (g *Gen) genC11(n int) error {
 			g.emit("merge %s segs=%s drops=%s", g.fresh("pf"), seg, g.randDrops(nd))
 			g.emit("endpar")
 			g.emit("poolprobe")
+			if i%4 == 2 && nd > 0 {
+				// this segment as one of TWO inputs that share doc-value fields: afterwards its own doc
+				// values (fresh visit states) are what they were, and the same merge can be repeated
+				t, _ := g.smallSegForFaults()
+				for r := 0; r < 2; r++ {
+					g.emit("merge %s segs=%s,%s drops=nil|nil", g.fresh("pf"), seg, t)
+					g.emit("merge %s segs=%s,%s drops=nil|0", g.fresh("pf"), t, seg)
+					for d := 0; d < nd; d++ {
+						g.emit("q dv %s - fields=%s doc=%d", seg, strList(sortedFieldNames(u.Fields)), d)
+					}
+					for d := 0; d < g.ndocs[t]; d++ {
+						g.emit("q dv %s - fields=%s doc=%d", t, strList(sortedFieldNames(g.univ[t].Fields)), d)
+					}
+				}
+				g.st("par.twoinputmerges")
+			}
 			if i%4 == 1 {
 				// merges of this segment abandoned at various points (the close channel closes inside the
 				// k-th progress report): the segment goes on answering as before, and merges again
@@ -580,6 +634,12 @@ func (g *Gen) genC17(n int) error {
 			g.emit("mergefaults %s segs=%s,%s drops=%s|%s max=%d transienttail=%d", mf, o, s2, d1, d2, 60, 260)
 		} else {
 			g.emit("mergefaults %s segs=%s,%s drops=%s|%s max=%d", mf, o, s2, d1, d2, g.tierN(150, 600))
+		}
+		// a write fault and a cancellation in one merge: the file size is limited to about half of what
+		// the merge writes AND the channel closes inside the k-th report, early, in the middle, at the
+		// very end - whichever is noticed first, an error comes back and nothing is left
+		for _, k := range []int{3, 40, 200, 100000} {
+			g.emit("merge %s segs=%s,%s drops=%s|%s fsize=%d full=1000000 close=report:%d", g.fresh("fx"), o, s2, d1, d2, 150+g.r.Intn(200), k)
 		}
 		m := g.fresh("m")
 		g.emit("open %s %s", m, mf)
@@ -937,6 +997,13 @@ func (g *Gen) genC20(n int) error {
 		g.alias(o3, se)
 		g.emit("ref addref %s", o2)
 		g.emit("merge %s segs=%s drops=%s", g.fresh("mf"), strList([]string{o1, o2, o3, s}[:2+g.r.Intn(3)]), "nil|nil|nil|nil")
+		// inputs in memory listed before, between and after the opened ones
+		g.emit("merge %s segs=%s drops=nil|nil", g.fresh("mf"), strList([]string{s, o1}))
+		g.emit("merge %s segs=%s drops=nil|nil|nil", g.fresh("mf"), strList([]string{o2, s, o1}))
+		// streaming an opened segment: with a writer, and refused for lack of one
+		g.emit("writeto %s %s", o1, g.fresh("w"))
+		g.emit("writeto %s %s nilw=1", o1, g.fresh("w"))
+		g.emit("writeto %s %s nilw=1", o2, g.fresh("w"))
 		// merges that fail (abandoned before they start, at their k-th report, out of file size): the
 		// inputs keep their references and everything they have loaded - thesauri included
 		g.emit("merge %s segs=%s,%s drops=nil|nil close=before", g.fresh("mf"), o1, o2)
